@@ -19,11 +19,11 @@ RULE = ('cases: (a) single-node scripts - a random node (station told nothing / 
         'destination kind from random stations (and, in 40 % of the trees, from an application on a router), cold, organically warmed and installed caches; observed: the complete ordered trace of '
         'frames on every LAN and deliveries, compared with the model world run on the same script.  non-trivial = at least one frame '
         'or delivery results; distinct by full script.  (c) tree-cert - for random trees with installed caches the hypotheses of the tree theorems '
-        '(internet_okb, tree_tob, tree_fromb: levels / up-ports / parent ports found by BFS in the harness) are evaluated inside Coq on the model world; expected 1.  The direct predicate also submits bursts: 2..4 packets for one remote network handed down in the same instant on cold trees.')
+        '(internet_okb, tree_tob, tree_fromb: levels / up-ports / parent ports found by BFS in the harness) are evaluated inside Coq on the model world; expected 1.  (d) node-script-route-aware - node scripts run with settings.route_aware on: submissions to destinations that carry a route, and the route of every source shown.  The direct predicate runs its tree scenarios with route_aware off and on, and also submits bursts: 2..4 packets for one remote network handed down in the same instant on cold trees.')
 TRUSTED = ['model coq/theories/Net.v written by hand after netservice.py:329-706, 878-1026 and vlan.py:55-131; tie = correspondence',
            'NPDUs are modelled in decoded form; the harness decodes LAN frames with its own decoder (c06_impl.npdu_decode); the NPCI codec is property C08',
            'RouterInfoCache is abstracted to its lookup function (snet, dnet) -> router MAC (coherent states only; property C19)']
-ASSUMPTIONS = ['settings.route_aware is False (default)',
+ASSUMPTIONS = ['settings.route_aware: both settings are exercised; with it on, destinations carrying a route are modelled by indication_routed and the route of the source shown by up_route (addrRoute of DADR/SADR objects is not on the wire)',
                'network numbers 1..65534; network-layer messages other than Who-Is-Router-To-Network / I-Am-Router-To-Network and vendor types are not generated (model answers Unmodelled)',
                'routers know the network number of each port (a router port without a number raises TypeError in RemoteStation(); Unmodelled)',
                'priority and expecting-reply bits are carried through unchanged and not compared',
@@ -111,6 +111,7 @@ def q_npdu(d):
 
 
 def q_addr(a):
+    a = I.strip_route(a)
     k = a[0]
     if k == 'ls': return '(ALS %s)' % q_mac(a[1])
     if k == 'lb': return 'ALB'
@@ -131,6 +132,8 @@ def q_event(e):
         return '(ELearn %d%%nat %s %s)' % (e[1], q_mac(e[2]), nlist(e[3]))
     if e[0] == 'send':
         return '(ESend %s %s)' % (q_addr(e[1]), nlist([0x10, 99] + list(e[2])))
+    if e[0] == 'sendr':
+        return '(ESendR %s %s %s)' % (q_addr(e[1]), q_mac(e[2]), nlist([0x10, 99] + list(e[3])))
     return '(EArrive %d%%nat %s %s %s)' % (e[1], q_mac(e[2]), q_ldest(e[3]), q_npdu(e[4]))
 
 
@@ -164,6 +167,75 @@ def impl_script(ports, has_app, events, grid=GRID):
         for n in lst:
             out += c_npdu(npdu_obj(n))
     return out
+
+
+def impl_script_ra(ports, has_app, events, grid=GRID):
+    """like impl_script but with settings.route_aware on: 'sendr' submits to a destination that carries a route, and
+    after the entries of each arrival the route of the source shown is appended ([0] none / [1, len, octets])"""
+    with I.RouteAware(True):
+        log = []
+        node = I.ImplNode('n', [(net, mac) for net, mac in ports], has_app, log)
+        out = []
+        for e in events:
+            del log[:]
+            try:
+                if e[0] == 'learn':
+                    node.learn(e[1], e[2], e[3])
+                elif e[0] == 'send':
+                    node.send(e[1], e[2])
+                elif e[0] == 'sendr':
+                    node.send(e[1] + (('via', bytes(e[2])),), e[3])
+                else:
+                    node.arrive(e[1], e[2], e[3], I.npdu_encode(e[4]))
+            except RecursionError:
+                raise
+            except Exception as x:
+                log.append(('raise', exc_code(x)))
+            out.append(len(log))
+            for l in log:
+                out += c_log_entry(l)
+            if e[0] == 'arrive':
+                for l in log:
+                    if l[0] == 'up':
+                        r = I.route_of(l[2])
+                        out += [0] if r is None else [1] + c_mac(r)
+        for i, d, m in node.cache_view(grid):
+            out += [0] if m is None else [1] + c_mac(m)
+        pv = node.nsap.pending_nets
+        out.append(len(pv))
+        for dnet, lst in pv.items():
+            out += [dnet, len(lst)]
+            for n in lst:
+                out += c_npdu(npdu_obj(n))
+        return out
+
+
+def case_script_ra(ports, has_app, events):
+    exp = impl_script_ra(ports, has_app, events)
+    coq = 'c_script_ra (run_script_ra %s [%s]) %s' % (q_node(ports, has_app), ';'.join(q_event(e) for e in events), nlist(GRID))
+    desc = {'op': 'node-script-ra', 'ports': [[n, None if m is None else bytes(m).hex()] for n, m in ports], 'has_app': has_app,
+            'events': [_jsonable(e) for e in events]}
+    return Case('node-script-route-aware', coq, exp, key=('ra', repr(ports), has_app, repr(events)), nontrivial=True, desc=desc)
+
+
+def rnd_script_ra(rng):
+    ports, has_app = rnd_node(rng)
+    events, known = [], []
+    for _ in range(rng.randrange(1, 6)):
+        r = rng.random()
+        if r < 0.15:
+            dn = rng.sample(NETPOOL + [7], rng.randrange(1, 3))
+            known += dn
+            events.append(('learn', rng.randrange(len(ports)), rnd_mac(rng), dn))
+        elif r < 0.5 and has_app:
+            e = rnd_send(rng, ports)
+            if rng.random() < 0.75:
+                events.append(('sendr', e[1], rnd_mac(rng), e[2]))
+            else:
+                events.append(e)
+        else:
+            events.append(rnd_arrival(rng, ports, known))
+    return ports, has_app, events
 
 
 def case_script(kind, ports, has_app, events):
@@ -639,6 +711,8 @@ def cases(rng, tier):
     for _ in range(_n(80 if big else 16)):
         topo = ring(rng, rng.choice([3, 4]), tail=rng.random() < 0.4)
         out.append(case_world('ring-script', topo, rnd_world_script(rng, topo, rng.randrange(1, 3), 250)))
+    for _ in range(_n(4000 if big else 600)):
+        out.append(case_script_ra(*rnd_script_ra(rng)))
     for _ in range(_n(400 if big else 40)):
         topo = rnd_tree(rng, 8 if rng.random() < 0.6 else 4)
         out.append(case_cert(topo, rng.choice(list(topo.nets))))
@@ -691,7 +765,7 @@ def check_send(net, topo, src, kind, dest, rec, payload, limit=WATCHDOG, reply=T
     dist = topo.dist()
     for l in ups:
         shown = ('ls', smac) if l[1][1] == snet else ('rs', snet, smac)
-        if l[2] != shown:
+        if I.strip_route(l[2]) != shown:
             return dict(base, kind='wrong-source-shown', at=str(l[1]), shown=str(l[2]), want=str(shown))
     per_lan = collections.Counter()
     for lan, fsrc, fdst, d in _payload_frames(net.frames, apdu):
@@ -875,7 +949,7 @@ def check_burst(topo, src, sends, limit=WATCHDOG):
             return dict(base, kind='burst-wrong-recipients', payload=apdu[2:].hex(), dest=_jsonable(dest), position=[p for _, _, _, p in sends].index(apdu[2:]),
                         got=sorted(map(str, got.elements())), want=sorted(map(str, want.elements())))
         for l in ups:
-            if l[4] == apdu and l[2] != ('rs', snet, smac):
+            if l[4] == apdu and I.strip_route(l[2]) != ('rs', snet, smac):
                 return dict(base, kind='burst-wrong-source-shown', shown=str(l[2]))
     if any(l[4] not in known for l in ups):
         return dict(base, kind='burst-stray-delivery')
@@ -949,39 +1023,47 @@ def direct(rng, tier, focus=()):
         if f is not None:
             failures.append(f)
 
-    # --- trees: every (source, kind, destination), cold start, caches warming as traffic flows
-    for t in range(_n(160 if big else 36)):
-        topo = rnd_tree(rng, 8 if t % 2 == 0 else 5)
-        triples = [(src, kind, dest, rec) for src in topo.station_ids for (kind, dest, rec) in all_dests(topo, src)]
-        rng.shuffle(triples)
-        net = build(topo)
-        budget = len(triples) if big or t < 8 else 60
-        for k, (src, kind, dest, rec) in enumerate(triples[:budget]):
-            f = check_send(net, topo, src, kind, dest, rec, bytes([t % 256, k % 256, k // 256]))
-            n_eval += 1
-            hist[kind + ('/cold' if k == 0 else '/warming')] += 1
-            nontriv.add((t, k))
-            note(f)
-            if f is not None:
-                break
-        # cold: each on a fresh internetwork
-        for k, (src, kind, dest, rec) in enumerate(triples[:40 if big else 10]):
+    # --- trees, twice: with settings.route_aware off (default) and on (the source shown then carries the route, and
+    #     a reply to it takes the route-aware branch of NetworkServiceAccessPoint.indication)
+    for ra in (False, True):
+      with I.RouteAware(ra):
+        before = len(failures)
+        tag = '/route-aware' if ra else ''
+        # --- trees: every (source, kind, destination), cold start, caches warming as traffic flows
+        for t in range(_n((160 if big else 36) // (2 if ra else 1))):
+            topo = rnd_tree(rng, 8 if t % 2 == 0 else 5)
+            triples = [(src, kind, dest, rec) for src in topo.station_ids for (kind, dest, rec) in all_dests(topo, src)]
+            rng.shuffle(triples)
             net = build(topo)
-            note(check_send(net, topo, src, kind, dest, rec, bytes([t % 256, k, 0xcc])))
-            n_eval += 1
-            hist[kind + '/cold'] += 1
-            nontriv.add((t, 'cold', k))
-        # installed (correct) caches
-        net = build(topo)
-        for e in warm_events(topo):
-            node_of(net, topo, e[1]).learn(e[2], e[3], e[4])
-        for k, (src, kind, dest, rec) in enumerate(triples[:40 if big else 12]):
-            note(check_send(net, topo, src, kind, dest, rec, bytes([t % 256, k, 0xaa])))
-            n_eval += 1
-            hist[kind + '/installed'] += 1
-            nontriv.add((t, 'warm', k))
-        if t == 0:
-            samples.append({'direct': 'tree', 'topology': topo.describe(), 'combinations': len(triples)})
+            budget = len(triples) if big or t < 8 else 60
+            for k, (src, kind, dest, rec) in enumerate(triples[:budget]):
+                f = check_send(net, topo, src, kind, dest, rec, bytes([t % 256, k % 256, k // 256]))
+                n_eval += 1
+                hist[kind + ('/cold' if k == 0 else '/warming') + tag] += 1
+                nontriv.add((ra, t, k))
+                note(f)
+                if f is not None:
+                    break
+            # cold: each on a fresh internetwork
+            for k, (src, kind, dest, rec) in enumerate(triples[:40 if big else 10]):
+                net = build(topo)
+                note(check_send(net, topo, src, kind, dest, rec, bytes([t % 256, k, 0xcc])))
+                n_eval += 1
+                hist[kind + '/cold' + tag] += 1
+                nontriv.add((ra, t, 'cold', k))
+            # installed (correct) caches
+            net = build(topo)
+            for e in warm_events(topo):
+                node_of(net, topo, e[1]).learn(e[2], e[3], e[4])
+            for k, (src, kind, dest, rec) in enumerate(triples[:40 if big else 12]):
+                note(check_send(net, topo, src, kind, dest, rec, bytes([t % 256, k, 0xaa])))
+                n_eval += 1
+                hist[kind + '/installed' + tag] += 1
+                nontriv.add((ra, t, 'warm', k))
+            if t == 0:
+                samples.append({'direct': 'tree', 'topology': topo.describe(), 'combinations': len(triples)})
+        for f in failures[before:]:
+            f['route_aware'] = ra
     # --- bursts on cold trees: several packets for one remote network handed down before the path is known
     for t in range(_n(400 if big else 60)):
         topo = rnd_tree(rng, 6 if t % 2 else 3)
@@ -1082,11 +1164,19 @@ def classify(f):
 def replay(payload):
     f = payload.get('failure') or (payload.get('broken') or [{}])[0].get('minimal_case', {}).get('desc', {})
     print('replay', str(f)[:1500])
+    with I.RouteAware(bool(f.get('route_aware'))):
+        _replay(f)
+
+
+def _replay(f):
     if 'events' in f and 'ports' in f:
         ports = [(n, None if m is None else bytes.fromhex(m)) for n, m in f['ports']]
         ev = [_unjson(e) for e in f['events']]
         print('implementation:', impl_script(ports, f['has_app'], ev))
         print('node clauses  :', [x['kind'] for x in node_checks(ports, f['has_app'], ev)])
+    elif 'reply_to' in f:
+        # a failing reply: replay the request it answers, the reply is sent again as part of it
+        _replay(f['reply_to'])
     elif 'topology' in f and 'source' in f:
         topo = Topo.from_desc(f['topology'])
         net = build(topo)
